@@ -158,7 +158,7 @@ class World:
         self.ops_done = 0
         res.sigs = {"deep_states": set(), "states": set(), "transitions": set()}
         try:
-            root = ExpressionParser().parse(cfg["start"])
+            root = core.bounded_parse(cfg["start"])
         except Exception:
             root = None
         self.pending = []
@@ -445,7 +445,7 @@ class World:
                               f"str() of the result of {rule_name} on {s.printed!r} raised {type(e).__name__}"))
         if text is not None:
             try:
-                back = ExpressionParser().parse(text)
+                back = core.bounded_parse(text)
             except Exception as e:  # noqa
                 back = None
                 admit = False
@@ -485,7 +485,7 @@ class World:
             return [Finding("C04", {"clause": "print", "exc": type(e).__name__},
                             f"str() of {trees.show(root)} ({how}) raised {type(e).__name__}")]
         try:
-            back = ExpressionParser().parse(text)
+            back = core.bounded_parse(text)
         except Exception as e:  # noqa
             return [Finding("C04", {"clause": "reparse", "kind": "rejected", "site": self._reparse_site(root)},
                             f"{trees.show(root)} ({how}) prints as {text!r}; the parser rejects it "
@@ -512,7 +512,7 @@ class World:
         for sub in subs:
             try:
                 text = str(sub)
-                back = ExpressionParser().parse(text)
+                back = core.bounded_parse(text)
             except Exception:
                 return desc(sub, 2)
             # compare detached semantics: the subtree against its re-parse
@@ -702,8 +702,8 @@ def planted_equation(rng, vs):
         lt = rw_expr(rng, rng.randint(0, 2), vs, int_only=True)
         rt = rw_expr(rng, rng.randint(0, 2), vs, int_only=True)
         try:
-            L = ExpressionParser().parse(lt)
-            R = ExpressionParser().parse(rt)
+            L = core.bounded_parse(lt)
+            R = core.bounded_parse(rt)
             lv, _ = trees.ev(L, env)
             rv, _ = trees.ev(R, env)
         except Exception:
